@@ -4,6 +4,7 @@ pub mod c04;
 pub mod c09;
 pub mod c09_gen;
 pub mod adaptors;
+pub mod selftest;
 
 /// opaque environment operations: bodies are never used, the checker binds python models to them
 macro_rules! stub {
